@@ -301,4 +301,128 @@ theorem globMatches_eq_compMatch (p : Pat) (m : List Str) (hp : ValidPat p) (hm 
         simp only [compileGlob, compMatch]
         rw [rmatch_lits _ (rmatch_tail_boundary ps) c hc d m hd, rmatch_compileTail ps hps m hm']
 
+/-! ## the string order and insertion sort -/
+
+theorem strLe_refl (a : Str) : strLe a a = true := by
+  induction a with
+  | nil => rfl
+  | cons x a ih => simp [strLe, ih]
+
+theorem strLe_total (a : Str) : ∀ b, strLe a b = true ∨ strLe b a = true := by
+  induction a with
+  | nil => intro b; left; cases b <;> rfl
+  | cons x a ih =>
+    intro b
+    cases b with
+    | nil => right; rfl
+    | cons y b =>
+      simp only [strLe]
+      by_cases h1 : x.toNat < y.toNat
+      · left; simp [h1]
+      · by_cases h2 : y.toNat < x.toNat
+        · right; simp [h2]
+        · simp only [h1, h2, if_false]
+          exact ih b
+
+theorem strLe_trans (a : Str) : ∀ b c, strLe a b = true → strLe b c = true → strLe a c = true := by
+  induction a with
+  | nil => intro b c _ _; cases c <;> rfl
+  | cons x a ih =>
+    intro b c hab hbc
+    cases b with
+    | nil => simp [strLe] at hab
+    | cons y b =>
+      cases c with
+      | nil => simp [strLe] at hbc
+      | cons z c =>
+        simp only [strLe] at hab hbc ⊢
+        by_cases hxy : x.toNat < y.toNat
+        · by_cases hyz : y.toNat < z.toNat
+          · have : x.toNat < z.toNat := by omega
+            simp [this]
+          · by_cases hzy : z.toNat < y.toNat
+            · simp [hyz, hzy] at hbc
+            · have : x.toNat < z.toNat := by omega
+              simp [this]
+        · by_cases hyx : y.toNat < x.toNat
+          · simp [hxy, hyx] at hab
+          · simp only [hxy, hyx, if_false] at hab
+            by_cases hyz : y.toNat < z.toNat
+            · have : x.toNat < z.toNat := by omega
+              simp [this]
+            · by_cases hzy : z.toNat < y.toNat
+              · simp [hyz, hzy] at hbc
+              · simp only [hyz, hzy, if_false] at hbc
+                have h1 : ¬ x.toNat < z.toNat := by omega
+                have h2 : ¬ z.toNat < x.toNat := by omega
+                simp only [h1, h2, if_false]
+                exact ih b c hab hbc
+
+/-- two strings that agree up to a position where the first has the smaller character -/
+theorem strLe_common_prefix (p : Str) (x y : Char) (s t : Str) (h : x.toNat < y.toNat) :
+    strLe (p ++ x :: s) (p ++ y :: t) = true ∧ strLe (p ++ y :: t) (p ++ x :: s) = false := by
+  induction p with
+  | nil =>
+    have h' : ¬ y.toNat < x.toNat := by omega
+    simp [strLe, h, h']
+  | cons c p ih => simp [strLe, ih]
+
+theorem insertSorted_perm (le : α → α → Bool) (x : α) (l : List α) :
+    (insertSorted le x l).Perm (x :: l) := by
+  induction l with
+  | nil => exact List.Perm.refl _
+  | cons y ys ih =>
+    simp only [insertSorted]
+    split
+    · exact List.Perm.refl _
+    · exact (List.Perm.cons y ih).trans (List.Perm.swap x y ys)
+
+theorem isort_perm (le : α → α → Bool) (l : List α) : (isort le l).Perm l := by
+  induction l with
+  | nil => exact List.Perm.refl _
+  | cons x xs ih => exact (insertSorted_perm le x _).trans (List.Perm.cons x ih)
+
+theorem insertSorted_pairwise (le : α → α → Bool)
+    (total : ∀ a b, le a b = true ∨ le b a = true)
+    (trans : ∀ a b c, le a b = true → le b c = true → le a c = true)
+    (x : α) (l : List α) (h : l.Pairwise (fun a b => le a b = true)) :
+    (insertSorted le x l).Pairwise (fun a b => le a b = true) := by
+  induction l with
+  | nil => simp [insertSorted]
+  | cons y ys ih =>
+    simp only [insertSorted]
+    have hy := List.pairwise_cons.mp h
+    split
+    · rename_i hxy
+      refine List.pairwise_cons.mpr ⟨?_, h⟩
+      intro z hz
+      rcases List.mem_cons.mp hz with rfl | hz
+      · exact hxy
+      · exact trans _ _ _ hxy (hy.1 z hz)
+    · rename_i hxy
+      have hyx : le y x = true := by
+        rcases total x y with h1 | h1
+        · exact absurd h1 hxy
+        · exact h1
+      refine List.pairwise_cons.mpr ⟨?_, ih hy.2⟩
+      intro z hz
+      have : z ∈ x :: ys := (insertSorted_perm le x ys).mem_iff.mp hz
+      rcases List.mem_cons.mp this with rfl | hz
+      · exact hyx
+      · exact hy.1 z hz
+
+theorem isort_pairwise (le : α → α → Bool)
+    (total : ∀ a b, le a b = true ∨ le b a = true)
+    (trans : ∀ a b c, le a b = true → le b c = true → le a c = true) (l : List α) :
+    (isort le l).Pairwise (fun a b => le a b = true) := by
+  induction l with
+  | nil => simp [isort]
+  | cons x xs ih => exact insertSorted_pairwise le total trans x _ ih
+
+theorem sortPats_perm (ps : List Pat) : (sortPats ps).Perm ps := isort_perm _ ps
+
+theorem sortPats_pairwise (ps : List Pat) :
+    (sortPats ps).Pairwise (fun a b => strLe a.str b.str = true) :=
+  isort_pairwise _ (fun a b => strLe_total a.str b.str) (fun a b c => strLe_trans a.str b.str c.str) ps
+
 end Config
